@@ -1099,6 +1099,8 @@ def check_query_case(c):
 def _v(package, date, deps=None, metaEnv=None):
     v = {"meta": {"bob": "0.25", "step": "dist", "language": "bash", "package": package, "recipe": "r"},
          "build": {"sysname": "Linux", "nodename": "n", "release": "6.1", "version": "#1", "machine": "x86_64", "date": date}}
+    if date is None:
+        del v["build"]["date"]
     if metaEnv is not None:
         v["metaEnv"] = metaEnv
     return {"vars": v, "deps": deps or {"args": [], "tools": {}, "sandbox": None, "via": "direct"}}
@@ -1140,7 +1142,63 @@ def fixed_scripts():
         "ops": [["add", 0, 0], ["add", 1, 0], ["add", 2, 0], ["scan"], ["block", 0],
                 ["clean", [_e('meta.package == "x"', PKG_X)], True, False, False], ["unblock", 0],
                 ["clean", [_e('meta.package == "x"', PKG_X)], True, False, False], ["expect-deleted", 0], ["expect-deleted", 2]]}))
+    # references through two levels and through non-dist audit records; find is direct; refs are pruned
+    dep = lambda j, via: {"args": [[j, 0]], "tools": {}, "sandbox": None, "via": via}
+    out.append(("two-level-refs", {
+        "arts": [{"bid": C, "versions": [_v("lib2", "2019-01-01")]},
+                 {"bid": B, "versions": [_v("lib", "2020-01-01", dep(0, "build"))]},
+                 {"bid": A, "versions": [_v("top", "2021-01-01", {"args": [], "tools": {"t": [1, 0]}, "sandbox": None, "via": "deep"})]},
+                 {"bid": "dd" * 20, "versions": [_v("other", "2021-01-01", dep(0, "direct"))]}],
+        "ops": [["add", 0, 0], ["add", 1, 0], ["add", 2, 0], ["add", 3, 0],
+                ["find", [_m(_cmp("meta.package", "==", "top"))], False],
+                ["clean", [_m(_cmp("meta.package", "==", "top"))], False, True, False],
+                ["clean", [_m(_cmp("meta.package", "==", "top"))], False, False, True],
+                ["clean", [_m(_cmp("meta.package", "==", "lib2"))], False, False, False],
+                ["add", 1, 0], ["clean", [_m(_cmp("meta.package", "==", "lib"))], False, False, False]]}))
+    # LIMIT / ORDER BY / missing sort field / per-expression limits / operators / undefined value / short circuit
+    sem_arts = [{"bid": "%02x" % (0x10 + i) * 20, "versions": [v]} for i, v in enumerate([
+        _v("x", "2020-01-01", metaEnv={"V": "2"}), _v("x", "2021-01-01", metaEnv={"V": "1"}), _v("x", "2022-01-01"),
+        _v("x", None, metaEnv={"V": "3"}), _v("y", "2019-01-01", metaEnv={}), _v("y", "2023-01-01", metaEnv={"V": ""})])]
+    X = _cmp("meta.package", "==", "x")
+    sem_exprs = [[_m(X, 2)], [_m(X, 2, "build.date", True)], [_m(X, 3)], [_m(X, 4)], [_m(X, 1, "metaEnv.V")], [_m(X, 2, "metaEnv.V", True)],
+                 [_m(X, 1), _m(_cmp("meta.recipe", "==", "r"), 1, "build.date", True)],
+                 [_m(_cmp("meta.recipe", "==", "r"), 1), _m(X, 1, "build.date", True)],
+                 [_m(_cmp("build.date", "<=", "2021-01-01"))], [_m(_cmp("build.date", ">", "2021-01-01"))],
+                 [_m(_cmp("build.date", ">=", "2021-01-01"))], [_m(_cmp("build.date", "<", "2021-01-01"))],
+                 [_m(_cmp("metaEnv.V", "==", ""))], [_m(_cmp("metaEnv.V", "!=", ""))], [_m(_cmp("metaEnv.nosuch", "==", "meta.nosuch", rref=True))],
+                 [_m({"and": [_cmp("meta.package", "==", "zzz"), _cmp("meta.nosuch", "<", "b")]})],
+                 [_m({"or": [_cmp("meta.package", "!=", "zzz"), _cmp("meta.nosuch", "<", "b")]})],
+                 [_m({"not": {"or": [_cmp("meta.package", "==", "y"), _cmp("build.date", "==", "2020-01-01")]}})]]
+    for g in range(0, len(sem_exprs), 3):
+        ops = [["add", i, 0] for i in range(6)]
+        for exprs in sem_exprs[g:g + 3]:
+            ops.append(["find", exprs, False])
+            ops.append(["clean", exprs, True, True, False])
+        ops.append(["clean", sem_exprs[g], False, False, True])
+        out.append(("semantics-%d" % (g // 3), {"arts": sem_arts, "ops": ops}))
+    # a replaced artifact is re-read
+    out.append(("replaced-vars", {
+        "arts": [{"bid": A, "versions": [_v("x", "2020-01-01"), _v("x", "2022-02-02")]}, {"bid": B, "versions": [_v("x", "2021-01-01")]}],
+        "ops": [["add", 0, 0], ["add", 1, 0], ["scan"], ["replace", 0, 1], ["find", [_m(_cmp("build.date", ">=", "2022"))], False],
+                ["touch", 1], ["clean", [_m(X, 1)], False, False, False]]}))
     return out
+
+
+def _cmp(field, op, value, rref=False):
+    return {"cmp": op, "l": {"ref": field.split(".")}, "r": {"ref": value.split(".")} if rref else {"lit": value}}
+
+
+def _m(pred, limit=None, sortBy=None, asc=None):
+    text = render_pred(pred)
+    e = {"pred": pred, "limit": limit, "sortBy": (sortBy or "build.date").split("."), "asc": bool(asc)}
+    if limit is not None:
+        text += " LIMIT %d" % limit
+        if sortBy is not None:
+            text += " ORDER BY " + sortBy
+            if asc is not None:
+                text += " ASC" if asc else " DESC"
+    e["text"] = text
+    return e
 
 
 def gen_block_script(r):
@@ -1222,10 +1280,26 @@ def malformed_worker(item):
 
 # ------------------------------------------------------------------ oracle / correspondence
 
-# the streams stop when less than this many seconds of the budget are left (the rest is needed by the later streams)
-T_HIST, T_MALFORMED, T_QUERY = 70, 55, 25
+# the streams stop when less than this share of the time budget is left (the rest is needed by the later streams)
+T_HIST, T_MALFORMED, T_QUERY = 0.47, 0.37, 0.17
 
 _STATE = {"traces": [], "queries": [], "shrunk": set()}
+
+
+def run_sliced(ctx, fn, items, reserve, label, handle):
+    """map fn over items in forked workers, in slices sized to take a few seconds each (whatever the machine load is),
+    until fewer than `reserve` seconds of the budget are left"""
+    import time
+    pos, size = 0, 16
+    while pos < len(items) and ctx.time_left() > reserve * ctx.budget:
+        t = time.time()
+        for res in ctx.parallel(fn, items[pos:pos + size]):
+            handle(res)
+        pos += size
+        per = max(1e-3, (time.time() - t) / size)
+        size = max(8, min(96, int(6.0 / per)))
+    if pos < len(items):
+        ctx.skip("%s: %d of %d not run (time budget)" % (label, len(items) - pos, len(items)))
 
 
 def _report(ctx, res):
@@ -1236,10 +1310,10 @@ def _report(ctx, res):
             continue
         seen.add(f["signature"])
         script = res["script"]
-        if f["signature"] not in _STATE["shrunk"] and len(_STATE["shrunk"]) < 4 and res["kind"] != "script" and ctx.time_left() > 40:
+        if f["signature"] not in _STATE["shrunk"] and len(_STATE["shrunk"]) < 3 and res["kind"] != "script" and ctx.time_left() > 0.4 * ctx.budget:
             # first occurrence of this failure class: minimise the history
             _STATE["shrunk"].add(f["signature"])
-            script = shrink(script, f["signature"], os.path.join(ctx.tmp, "shrink-%d" % len(_STATE["shrunk"])), budget=20)
+            script = shrink(script, f["signature"], os.path.join(ctx.tmp, "shrink-%d" % len(_STATE["shrunk"])), budget=12)
         elif res["kind"] == "script":
             _STATE["shrunk"].add(f["signature"])
         ctx.violation(f["what"], {"kind": "script", "script": script, "history": describe(script), "signature": f["signature"],
@@ -1253,73 +1327,67 @@ def oracle(ctx):
     n_hist = ctx.scale(230, 6000)
     n_odd = ctx.scale(50, 1200)
     n_block = ctx.scale(30, 600)
-    for k in range(n_hist):
-        items.append(("hist", ctx.subrng("hist", k).getrandbits(64), os.path.join(ctx.tmp, "h%d" % k), None))
-    for k in range(n_odd):
-        items.append(("odd", ctx.subrng("odd", k).getrandbits(64), os.path.join(ctx.tmp, "o%d" % k), None))
-    for k in range(n_block):
-        s = gen_block_script(random.Random(ctx.subrng("block", k).getrandbits(64)))
-        items.append(("script", "block-%d" % k, os.path.join(ctx.tmp, "b%d" % k), s))
-    # in slices so that the time budget is honoured
-    pos = 0
-    step = 32
-    while pos < len(items) and ctx.time_left() > T_HIST:
-        for res in ctx.parallel(history_worker, items[pos:pos + step]):
-            if res["error"]:
-                raise RuntimeError("history worker failed: " + res["error"])
-            _report(ctx, res)
-            for tr in res["traces"]:
-                op = tr["op"]
-                nontrivial = bool(tr["pre_files"] or tr["pre_rows"])
-                ctx.case(("cmd", op, [(f["bid"], f["audit"]) for f in tr["pre_files"]], sorted(tr["pre_rows"])), nontrivial=nontrivial,
-                         sample={"cmd": " ".join(argv_of(op)[1:]), "files_before": len(tr["pre_files"]),
-                                 "index_rows_before": len(tr["pre_rows"]), "status": tr["status"], "kind": tr["kind"],
-                                 "files_after": len(tr["post_files"])})
-                ctx.count("command", op[0] + (" -n" if op[0] != "scan" and op[2] else "") + (" --dry-run" if op[0] == "clean" and op[3] else ""))
-                ctx.count("outcome", tr["status"] if tr["status"] == "ok" else "%s:%s" % (tr["status"], tr["kind"]))
-                stale = [b for b in tr["pre_rows"] if b not in {f["bid"] for f in tr["pre_files"]}]
-                ctx.count("index_before", "empty" if not tr["pre_rows"] else ("stale-rows" if stale else "warm"))
-            for f in res["findings"]:
-                ctx.count("oracle_findings", f["signature"])
-            _STATE["traces"].append((res["kind"], res["subseed"], res["script"], res["traces"]))
-        pos += step
-    if pos < len(items):
-        ctx.skip("oracle: %d of %d histories not run (time budget)" % (len(items) - pos, len(items)))
+    hist = [("hist", ctx.subrng("hist", k).getrandbits(64), os.path.join(ctx.tmp, "h%d" % k), None) for k in range(n_hist)]
+    odd = [("odd", ctx.subrng("odd", k).getrandbits(64), os.path.join(ctx.tmp, "o%d" % k), None) for k in range(n_odd)]
+    block = [("script", "block-%d" % k, os.path.join(ctx.tmp, "b%d" % k),
+              gen_block_script(random.Random(ctx.subrng("block", k).getrandbits(64)))) for k in range(n_block)]
+    # interleaved, so that a run that is cut short by the time budget has seen every kind
+    while hist or odd or block:
+        items.extend(hist[:5])
+        items.extend(odd[:1])
+        items.extend(block[:1])
+        hist, odd, block = hist[5:], odd[1:], block[1:]
+
+    def handle_history(res):
+        if res["error"]:
+            raise RuntimeError("history worker failed: " + res["error"])
+        _report(ctx, res)
+        for tr in res["traces"]:
+            op = tr["op"]
+            nontrivial = bool(tr["pre_files"] or tr["pre_rows"])
+            ctx.case(("cmd", op, [(f["bid"], f["audit"]) for f in tr["pre_files"]], sorted(tr["pre_rows"])), nontrivial=nontrivial,
+                     sample={"cmd": " ".join(argv_of(op)[1:]), "files_before": len(tr["pre_files"]),
+                             "index_rows_before": len(tr["pre_rows"]), "status": tr["status"], "kind": tr["kind"],
+                             "files_after": len(tr["post_files"])})
+            ctx.count("command", op[0] + (" -n" if op[0] != "scan" and op[2] else "") + (" --dry-run" if op[0] == "clean" and op[3] else ""))
+            ctx.count("outcome", tr["status"] if tr["status"] == "ok" else "%s:%s" % (tr["status"], tr["kind"]))
+            stale = [b for b in tr["pre_rows"] if b not in {f["bid"] for f in tr["pre_files"]}]
+            ctx.count("index_before", "empty" if not tr["pre_rows"] else ("stale-rows" if stale else "warm"))
+        for f in res["findings"]:
+            ctx.count("oracle_findings", f["signature"])
+        _STATE["traces"].append((res["kind"], res["subseed"], res["script"], res["traces"]))
+    run_sliced(ctx, history_worker, items, T_HIST, "oracle: histories", handle_history)
     # malformed artifacts
     mitems = [(ctx.subrng("malformed", k).getrandbits(64), os.path.join(ctx.tmp, "m%d" % k)) for k in range(ctx.scale(48, 800))]
-    for pos in range(0, len(mitems), 48):
-        if ctx.time_left() < T_MALFORMED:
-            ctx.skip("oracle: malformed artifacts %d.. not run (time budget)" % pos)
-            break
-        for rs in ctx.parallel(malformed_worker, mitems[pos:pos + 48]):
-            for m in rs:
-                if "error" in m:
-                    raise RuntimeError("malformed worker failed: " + m["error"])
-                ctx.case(("malformed", m["subseed"]))
-                ctx.count("malformed", "%s/%s -> %s" % (m["malformed"], m["op"], m["status"] if m["status"] == "ok" else m["status"] + ":" + str(m["kind"])[:24]))
-                if m["status"] == "internal":
-                    ctx.violation("`bob archive %s` on an archive with an unreadable artifact (%s) raised %s" % (m["op"], m["malformed"], m["kind"]),
-                                  {"kind": "malformed", "subseed": m["subseed"]}, "internal-exception-on-unreadable-artifact:" + m["malformed"])
-                if m["status"] != "ok" and m["deleted"]:
-                    ctx.violation("failed command deleted %s" % m["deleted"], {"kind": "malformed", "subseed": m["subseed"]},
-                                  "failed-command-deletes-files")
-                if m["bad"] in m["deleted"]:
-                    ctx.violation("unreadable artifact %s was deleted" % m["bad"], {"kind": "malformed", "subseed": m["subseed"]},
-                                  "unreadable-artifact-deleted")
+
+    def handle_malformed(rs):
+        for m in rs:
+            if "error" in m:
+                raise RuntimeError("malformed worker failed: " + m["error"])
+            ctx.case(("malformed", m["subseed"]))
+            ctx.count("malformed", "%s/%s -> %s" % (m["malformed"], m["op"], m["status"] if m["status"] == "ok" else m["status"] + ":" + str(m["kind"])[:24]))
+            if m["status"] == "internal":
+                ctx.violation("`bob archive %s` on an archive with an unreadable artifact (%s) raised %s" % (m["op"], m["malformed"], m["kind"]),
+                              {"kind": "malformed", "subseed": m["subseed"]}, "internal-exception-on-unreadable-artifact:" + m["malformed"])
+            if m["status"] != "ok" and m["deleted"]:
+                ctx.violation("failed command deleted %s" % m["deleted"], {"kind": "malformed", "subseed": m["subseed"]},
+                              "failed-command-deletes-files")
+            if m["bad"] in m["deleted"]:
+                ctx.violation("unreadable artifact %s was deleted" % m["bad"], {"kind": "malformed", "subseed": m["subseed"]},
+                              "unreadable-artifact-deleted")
+    run_sliced(ctx, malformed_worker, mitems, T_MALFORMED, "oracle: malformed artifacts", handle_malformed)
     # query() on stub scanners
     qitems = [(ctx.subrng("query", k).getrandbits(64), 25) for k in range(ctx.scale(192, 4000))]
-    for pos in range(0, len(qitems), 32):
-        if ctx.time_left() < T_QUERY:
-            ctx.skip("oracle: query() batches %d.. of %d not run (time budget)" % (pos, len(qitems)))
-            break
-        for batch in ctx.parallel(query_worker, qitems[pos:pos + 32]):
-            for c in batch:
-                ctx.case(("query", c["rows"], [e["text"] for e in c["exprs"]]), nontrivial=bool(c["rows"]))
-                ctx.count("query_outcome", c["got"][0] if c["got"][0] == "ok" else "err:" + str(c["got"][1]))
-                bad = check_query_case(c)
-                if bad:
-                    ctx.violation(bad[0], {"kind": "query", "rows": c["rows"], "exprs": c["exprs"]}, bad[1])
-            _STATE["queries"].append(batch)
+
+    def handle_query(batch):
+        for c in batch:
+            ctx.case(("query", c["rows"], [e["text"] for e in c["exprs"]]), nontrivial=bool(c["rows"]))
+            ctx.count("query_outcome", c["got"][0] if c["got"][0] == "ok" else "err:" + str(c["got"][1]))
+            bad = check_query_case(c)
+            if bad:
+                ctx.violation(bad[0], {"kind": "query", "rows": c["rows"], "exprs": c["exprs"]}, bad[1])
+        _STATE["queries"].append(batch)
+    run_sliced(ctx, query_worker, qitems, T_QUERY, "oracle: query() batches", handle_query)
 
 
 def model_request(tr, repaired):
@@ -1374,11 +1442,6 @@ def compare_trace(tr, m):
     if irefs != mrefs:
         return ("index refs", irefs, mrefs)
     return None
-
-
-def has_ties(tr):
-    """equal sort keys among the rows the command looks at (only relevant when SQLite's order is not the build-id order)"""
-    return True
 
 
 def correspond(ctx):
